@@ -202,6 +202,7 @@ pub const TYPED_KINDS: &[&str] = &[
     "h1_isstdcnt_bad",
     "h1_isutcnt_bad",
     "footer_big_number",
+    "footer_unicode_space",
 ];
 
 fn eff<'a>(f: &'a mut RawFile) -> &'a mut RawBlock {
@@ -461,6 +462,20 @@ pub fn typed(orig: &RawFile, kind: &str, arg: u64) -> Option<Vec<u8>> {
             let (st, en) = runs[a % runs.len()];
             let big: &[u8] = [&b"596524"[..], b"2147483647", b"4294967296", b"65536", b"596523", b"9223372036854775807", b"32768", b"1000"][(a / runs.len()) % 8];
             s.footer.splice(st..en, big.iter().copied());
+        }
+        "footer_unicode_space" => {
+            // a non-ASCII white-space character next to the TZ string (not part of any TZ grammar,
+            // and not ASCII white space): NEL, NBSP, LINE SEPARATOR, IDEOGRAPHIC SPACE
+            let s = f.second.as_mut()?;
+            if s.footer.len() < 2 || s.footer.first() != Some(&b'\n') || s.footer.last() != Some(&b'\n') {
+                return None;
+            }
+            let ws: &[u8] = [&b"\xC2\x85"[..], b"\xC2\xA0", b"\xE2\x80\xA8", b"\xE3\x80\x80"][a % 4];
+            let l = s.footer.len();
+            let pos = if (a / 4) % 2 == 0 { 1 } else { l - 1 };
+            let tail = s.footer.split_off(pos);
+            s.footer.extend_from_slice(ws);
+            s.footer.extend_from_slice(&tail);
         }
         "footer_junk_char" => {
             let s = f.second.as_mut()?;
